@@ -711,9 +711,86 @@ func c14CheckBytes(mf *memio.File, addr uint64, want int) string {
 	return ""
 }
 
+// c14Bulk: large nodes (8 KiB - 128 KiB) filled with thousands of records in one go, around
+// the record counts at which 16-bit products of count and record size wrap (5957/5958 records
+// of 11 bytes), written out, loaded and compared, then modified through the loaded object.
+func c14Bulk(c *ev.Ctx) {
+	r := c.R
+	nodeSize := []uint32{8192, 65536, 131072, 131072}[r.Intn(4)]
+	bt := structures.NewWritableBTreeV2(nodeSize)
+	capacity := bt.VerifMaxRecords()
+	n := []int{capacity, capacity - 1, capacity / 2, 5956, 5957, 5958, 5959, 8000}[r.Intn(8)]
+	if n > capacity {
+		n = capacity
+	}
+	if n < 1 {
+		n = 1
+	}
+	fail := func(key string, detail any) {
+		c.Violation("bulk:"+key, map[string]any{"node_size": nodeSize, "capacity": capacity, "records": n, "detail": detail})
+	}
+	model := map[string]uint64{}
+	for i := 0; i < n; i++ {
+		name := fmt.Sprintf("bulk-%06d-%x", i, r.Intn(1<<16))
+		if err := bt.InsertRecord(name, uint64(i+1)); err != nil {
+			fail("insert-refused", fmt.Sprintf("insert %d of %d: %v", i, n, err))
+			return
+		}
+		model[name] = uint64(i + 1)
+	}
+	sb := testSB()
+	mf := memio.New(2048)
+	addr, err := bt.WriteToFile(mf, mf, sb)
+	if err != nil {
+		fail("write-failed", err.Error())
+		return
+	}
+	nb := structures.NewWritableBTreeV2([]uint32{nodeSize, 4096}[r.Intn(2)])
+	if err := nb.LoadFromFile(mf, addr, sb); err != nil {
+		fail("load-failed", err.Error())
+		return
+	}
+	if !recordsEqual(bt.GetRecords(), nb.GetRecords()) {
+		fail("records-differ-after-load", fmt.Sprintf("%d written, %d loaded", len(bt.GetRecords()), len(nb.GetRecords())))
+		return
+	}
+	// a few operations on the loaded tree, written back in place, loaded again
+	for k := 0; k < 5; k++ {
+		name := fmt.Sprintf("bulk-late-%d", k)
+		err := nb.InsertRecord(name, uint64(1000000+k))
+		if (err == nil) != (len(model) < capacity) {
+			fail("late-insert", fmt.Sprintf("insert with %d of %d records: %v", len(model), capacity, err))
+			return
+		}
+		if err == nil {
+			model[name] = uint64(1000000 + k)
+		}
+	}
+	if err := nb.WriteAt(mf, sb); err != nil {
+		fail("writeat-failed", err.Error())
+		return
+	}
+	nb2 := structures.NewWritableBTreeV2(4096)
+	if err := nb2.LoadFromFile(mf, addr, sb); err != nil {
+		fail("load-after-writeat-failed", err.Error())
+		return
+	}
+	if len(nb2.GetRecords()) != len(model) || !recordsEqual(nb.GetRecords(), nb2.GetRecords()) {
+		fail("records-differ-after-writeat", fmt.Sprintf("%d in the model, %d loaded", len(model), len(nb2.GetRecords())))
+		return
+	}
+	c.Count("bulk_trees", 1)
+	c.Count("bulk_records", int64(n))
+	c.Case(fmt.Sprintf("bulk|ns%d|n%d", nodeSize, n), true)
+}
+
 func c14Run(c *ev.Ctx) {
 	if c.Index < 4 {
 		c14Hash(c)
+		return
+	}
+	if c.Index%25 == 9 {
+		c14Bulk(c)
 		return
 	}
 	c14History(c)
@@ -725,7 +802,7 @@ var C14 = &ev.Property{
 	ID:    "C14",
 	Level: "exploration",
 	Rule: "cases 0-3: name hash vs an independent lookup3 (all strings of length 0..2, random strings of every length 0..64 and some longer); other cases: a seeded history of insert/update/delete/search/write+load on a WritableBTreeV2 in a random rebalancing mode " +
-		"(off, immediate, lazy with random thresholds, lazy+incremental with a 1µs-1ms ticker), node sizes 128/512/4096, one third of the histories steered to and beyond capacity, one third with hash-colliding name pairs (mined with the library's own hash) in the pool; after every operation the record multiset, order, header counts and a search of a present or absent name are compared with a map model. " +
+		"(off, immediate, lazy with random thresholds, lazy+incremental with a 1µs-1ms ticker), node sizes 128/512/4096 (one case in 25 fills a node of 8 KiB - 128 KiB with up to 11 914 records in one go, writes it out, loads it, modifies it and writes it back), one third of the histories steered to and beyond capacity, one third with hash-colliding name pairs (mined with the library's own hash) in the pool; after every operation the record multiset, order, header counts and a search of a present or absent name are compared with a map model. " +
 		"A history is non-trivial if it has >=3 effective operations; distinct = distinct (mode, node size, reached capacity, continued after reload, probed a live colliding partner, ops/20, live/20) descriptors.",
 	Assumptions: []string{
 		"inserting a name that is already present is not part of the histories (no defined meaning in a name index)",
